@@ -2009,7 +2009,7 @@ theorem sum_replicate_zero (k : Nat) : ((List.replicate k ([] : Bytes)).map List
 theorem sum_replicate_one (k : Nat) : ((List.replicate k ([] : Bytes)).map (fun l => l.length + 1)).sum = k := by
   induction k with
   | zero => rfl
-  | succ n ih => simp [List.replicate_succ]
+  | succ n ih => simp [List.replicate_succ, ih]; omega
 
 theorem index_fromB (off : Nat) (rs : List (Rec × Nat)) (h : ∀ p ∈ rs, WFRec p.1) :
     indexLines off (rs.map recLinesB).flatten = specIndexFromB off rs := by
